@@ -325,6 +325,8 @@ class Interp:
                 return _TYPES[n.id]
             if n.id in _PURE_BUILTINS:
                 return _PURE_BUILTINS[n.id]
+            if n.id == "ast":
+                return ast  # the stdlib module: only its node classes are consulted (isinstance tests)
             if n.id in ("True", "False", "None"):
                 return {"True": True, "False": False, "None": None}[n.id]
             raise Unsupported(f"unknown name {n.id}")
@@ -421,6 +423,8 @@ class Interp:
             base = self.expr(n.value, env)
             if isinstance(base, dict) and n.attr in base and base.get("__obj__"):
                 return base[n.attr]
+            if base is ast and isinstance(getattr(ast, n.attr, None), type):
+                return getattr(ast, n.attr)
             if isinstance(base, ast.AST) and n.attr in base._fields:
                 # data fields of a syntax-tree value handed in by the checker (ast.Call.args, keyword.arg ...)
                 return getattr(base, n.attr)
